@@ -69,7 +69,7 @@ CHECKS = {
     "C08": dict(
         level="exploration",
         technique="exhaustive enumeration of all short strings through smart_quotes(); bounded-exhaustive document enumeration with an option-on/option-off character-wise relation",
-        text="Function level: every string of length <= 6 (quick) / 7 (thorough) over a 12-symbol alphabet of quotes, letters, space, dot, newline, "
+        text="Function level: every string of length <= 6 (quick) / 7 (thorough) over a 13-symbol alphabet of quotes, letters, a digit, space, dot, newline, "
              "tag delimiters, dash, parenthesis and backslash: output has the same length, differs only by straight->curly swaps of the right "
              "kind, leaves template tags untouched and never pairs quotes across a paragraph break. Document level: every token sequence over "
              "typography x inline x tag tokens in paragraphs, headings, table cells, list items, quotes and footnotes x widths x modes x other "
@@ -80,7 +80,7 @@ CHECKS = {
     "C09": dict(
         level="exploration",
         technique="exhaustive enumeration of all short strings through ellipses(); bounded-exhaustive document enumeration with an option-on/option-off relation",
-        text="Function level: every string of length <= 7 (quick) / 8 (thorough) over {letter, capital, space, dot, quote, comma, newline, dash}: "
+        text="Function level: every string of length <= 6 (quick) / 7 (thorough) over {letter, capital, space, dot, both quotes, comma, newline, dash, parenthesis, digit}: "
              "idempotent, no ellipsis invented, and mapping the ellipsis back to three dots gives the input up to the spaces around three-dot runs. "
              "Document level: every token sequence over dot/typography/inline/tag tokens in paragraphs, headings, table cells and containers x widths "
              "x modes x other options: same text (after mapping back, ignoring whitespace), same literal spans, same structure, and a second pass changes nothing.",
